@@ -815,6 +815,20 @@ def _len_receiver_roots(body, op):
     return None
 
 
+def _len_receiver_local(body, op):
+    """If `op` is the result of `<slice>.len()`: the local holding that slice (through reference temporaries)."""
+    pl = op_place(op)
+    if pl is None or pl["p"]:
+        return None
+    ds = body.defs().get(pl["l"], [])
+    if len(ds) == 1 and ds[0][2] == "assign" and ds[0][3]["rv"]["k"] == "use":
+        return _len_receiver_local(body, ds[0][3]["rv"]["a"][0])
+    if len(ds) == 1 and ds[0][2] == "call" and (ds[0][3].decl_s or "").endswith("::len"):
+        ap = op_place(ds[0][3].args[0])
+        return q._base_local(body, ap) if ap is not None else None
+    return None
+
+
 def discharge_by_bound(s):
     """Overflow asserts whose operands are provably small enough."""
     if s.kind != "assert" or not s.what.startswith("Overflow:"):
@@ -954,6 +968,28 @@ def discharge_by_guard(s):
                     return "guard: dominated by capacity parameter >= new_len"
     if s.kind == "api:index" and s.call is not None and s.what in ("slice::split_at", "slice::split_at_mut"):
         recv = frozenset(x[:2] if x[0] == "call" else x for x in Prov(b).of_operand(s.call.args[0]))
+        # mid = min(.., receiver.len()) in either order: mid <= receiver.len()
+        mp = op_place(s.call.args[1])
+        for _ in range(4):
+            if mp is None or mp["p"]:
+                break
+            ds_ = b.defs().get(mp["l"], [])
+            if len(ds_) == 1 and ds_[0][2] == "assign" and ds_[0][3]["rv"]["k"] == "use":
+                mp = op_place(ds_[0][3]["rv"]["a"][0])
+            else:
+                break
+        if mp is not None and not mp["p"]:
+            for (_, _, kind, payload) in b.defs().get(mp["l"], []):
+                if kind == "call" and (payload.decl_s or "").split("::")[-1] == "min" and len(payload.args) == 2:
+                    rp = op_place(s.call.args[0])
+                    rbase = q._base_local(b, rp) if rp is not None else None
+                    for a in payload.args:
+                        lr_ = _len_receiver_roots(b, a)
+                        if lr_ is not None and lr_ == recv:
+                            return "guard: split point is min(_, receiver.len())"
+                        lb = _len_receiver_local(b, a)
+                        if lb is not None and rbase is not None and lb == rbase:
+                            return "guard: split point is min(_, receiver.len()) (same slice local)"
         idx = _len_receiver_roots(b, s.call.args[1])
         if idx is not None:
             for cd in q.conds(b):
